@@ -79,7 +79,7 @@ def scale_scenario(ctx, job, oracles, name_prefix=''):
         if job.get('final'): job['final'](b, h, e)
         return h.ops
     name = '%sscale %d->%d shape=%s failover=%s' % (name_prefix, chunks_from, chunks_to, shape, with_failover)
-    res = ctx.explore(name, run, time_limit=job.get('time_limit'))
+    res = ctx.explore(name, run, time_limit=job.get('time_limit') or (None if ctx.tier == 'quick' else 900), soft=True)
     ctx.ops += sum(p.value or 0 for p in res if p.kind == 'ok')
     ctx.sample({'scenario': name, 'paths': len(res), 'path_condition_of_first': [str(c)[:160] for c in res[0].pc[:6]] if res else []})
 
